@@ -8,7 +8,10 @@
 (* and CallTracer.__call__ wraps handle_call / handle_return in            *)
 (* try/except Exception.  Faults: the logger's log() raises, its flush()   *)
 (* raises, inspecting a value raises.  The block ends normally or by an    *)
-(* exception of the program.                                               *)
+(* exception of the program.  The program may itself install or remove a  *)
+(* profiler inside the block (sys.setprofile): from then on the tracer    *)
+(* sees nothing, and on exit the profiler of BEFORE the block must still  *)
+(* be put back.                                                           *)
 (***************************************************************************)
 EXTENDS Naturals, Sequences, FiniteSets, TLC
 
@@ -17,7 +20,7 @@ CONSTANTS MaxCalls,
 
 VARIABLES phase,     \* "before" | "inside" | "after"
           prev,      \* profiler installed before: "none" | "other"
-          cur,       \* profiler installed now: "none" | "other" | "tracer"
+          cur,       \* profiler installed now: "none" | "other" | "tracer" | "prog" (one the program installed itself)
           calls,     \* Seq of per-call fault: "ok" | "log" | "inspect"
           flushFails,\* BOOLEAN: flush() will raise
           flushes,   \* times flush() was called
@@ -36,11 +39,18 @@ Enter == /\ phase = "before" /\ phase' = "inside" /\ cur' = "tracer"
          /\ hist' = Append(hist, [op |-> "Enter", x |-> prev])
          /\ UNCHANGED <<prev, calls, flushFails, flushes, logged, escaped, progExc, seen>>
 
+\* the program replaces the profiler inside the block: sys.setprofile(None) or a profiler of its own
+ProgSetsProfiler(x) == /\ phase = "inside" /\ cur = "tracer"
+                       /\ cur' = x
+                       /\ hist' = Append(hist, [op |-> "SetProfile", x |-> x])
+                       /\ UNCHANGED <<phase, prev, calls, flushFails, flushes, logged, escaped, progExc, seen>>
+
 \* one traced call completes; fault = what goes wrong inside the tracer callback for it
 CallF(fault) == /\ phase = "inside" /\ Len(calls) < MaxCalls
+                /\ (cur = "tracer" \/ fault = "ok")          \* no tracer callback, no fault
                 /\ calls' = Append(calls, fault)
                 \* try/except Exception in CallTracer.__call__: neither fault reaches the program
-                /\ logged' = IF fault = "ok" THEN logged + 1 ELSE logged
+                /\ logged' = IF fault = "ok" /\ cur = "tracer" THEN logged + 1 ELSE logged
                 /\ hist' = Append(hist, [op |-> "Call", x |-> fault])
                 /\ UNCHANGED <<phase, prev, cur, flushFails, flushes, escaped, progExc, seen>>
 
@@ -55,7 +65,7 @@ Exit(how) == /\ phase = "inside" /\ phase' = "after"
              /\ hist' = Append(hist, [op |-> "Exit", x |-> how])
              /\ UNCHANGED <<prev, calls, flushFails, logged>>
 
-Next == Enter \/ (\E f \in {"ok", "log", "inspect"} : CallF(f)) \/ (\E h \in {"normal", "exception", "sysexit"} : Exit(h))
+Next == Enter \/ (\E f \in {"ok", "log", "inspect"} : CallF(f)) \/ (\E x \in {"none", "prog"} : ProgSetsProfiler(x)) \/ (\E h \in {"normal", "exception", "sysexit"} : Exit(h))
 Spec == Init /\ [][Next]_vars
 
 \* C03
